@@ -239,7 +239,7 @@ def run_case(case, ctx):
     cancel_free = method in ('complex', 'multicomplex')
     hden = np.maximum(hh, 1.0) if method == 'multicomplex' else hh
     raw = D._OBS.get('raw')
-    if family == 'quadratic' and raw is not None and raw[2] == (n, n) and method != 'complex':
+    if family == 'quadratic' and raw is not None and raw[2] == (n, n):
         # "exact to rounding for quadratic f", where it is decided: every difference quotient, at every step, before
         # any extrapolation (a quadratic has no truncation error in any of the formulas). The final value may add the
         # noise amplification of the Richardson / Wynn stage, which the library reports in its estimate (below).
@@ -248,7 +248,9 @@ def run_case(case, ctx):
         hk = np.maximum(h_k, 1.0) if method == 'multicomplex' else h_k
         with np.errstate(all='ignore'):
             num = np.abs(res_k - exact.reshape(1, -1))
-            den = 64 * EPS * lam_rule * fscale / hk ** 2
+            # (the complex-step formula differences imaginary parts of size h |grad f|: its rounding is eps |grad f| / h, one
+            # power of h better than that of the real-step formulas, eps |f| / h^2)
+            den = 64 * EPS * lam_rule * fscale / (hk ** 2 if method != 'complex' else hk)
             ratio = np.where(den > 0, num / np.where(den > 0, den, 1.0), np.where(num == 0, 0.0, np.inf))
         ctx.count('quadratic_raw_quotients_asserted', int(ratio.size))
         rmax = float(np.max(ratio)) if ratio.size else 0.0
@@ -264,7 +266,7 @@ def run_case(case, ctx):
     for i in range(n):
         for j in range(n):
             err = abs(H[i, j] - exact[i, j])
-            hij = float(hden[i, j]) ** 2
+            hij = float(hden[i, j]) ** 2 if method != 'complex' else float(hden[i, j])
             floor = EPS * lamH * fscale / hij
             if family == 'quadratic':
                 bound = 64 * floor + (10 if method != 'complex' else 300) * est[i, j]
